@@ -180,6 +180,50 @@ class BandModel(torch.nn.Module):
         return F.leaky_clamp(prev, lo, hi, clamped_slope=self.slope, inverted_output=self.mode)
 
 
+class PreWW(torch.nn.Module):
+    """A trainable pre-transform of the features in front of pfhedge's WhalleyWilmott strategy: log-moneyness is
+    scaled and shifted, volatility scaled (kept positive), so the Black-Scholes delta AND the gamma-dependent
+    width of the no-transaction band depend on parameters."""
+
+    def __init__(self, ww):
+        super().__init__()
+        self.ww = ww
+        self.a = torch.nn.Parameter(torch.zeros(()))
+        self.b = torch.nn.Parameter(torch.zeros(()))
+        self.v = torch.nn.Parameter(torch.zeros(()))
+        self.stats = None
+
+    def forward(self, x):
+        logm = (1 + 0.3 * self.a) * x[..., [0]] + 0.05 * self.b
+        vol = x[..., [2]] * torch.exp(0.3 * self.v)
+        y = torch.cat([logm, x[..., [1]], vol, x[..., [3]]], dim=-1)
+        out = self.ww(y)
+        if self.stats is not None:
+            with torch.no_grad():
+                active = int((out != x[..., [3]]).sum())
+                self.stats["active"] += active
+                self.stats["inactive"] += out.numel() - active
+        return out
+
+
+class CountWW(torch.nn.Module):
+    """WhalleyWilmott itself as the (parameter-free) model; counts active / inactive clamp cells."""
+
+    def __init__(self, ww):
+        super().__init__()
+        self.ww = ww
+        self.stats = None
+
+    def forward(self, x):
+        out = self.ww(x)
+        if self.stats is not None:
+            with torch.no_grad():
+                active = int((out != x[..., [-1]]).sum())
+                self.stats["active"] += active
+                self.stats["inactive"] += out.numel() - active
+        return out
+
+
 class World:
     pass
 
@@ -239,19 +283,45 @@ def build_world(case):
         from pfhedge.nn import WhalleyWilmott
         ww = WhalleyWilmott(deriv)
         inputs, F = ["log_moneyness", ModuleOutput(ww, ww.inputs())], 2
+    elif fm == "ww":
+        # the features WhalleyWilmott reads; with model "ww:mo" the log-moneyness comes through a trainable ModuleOutput
+        from pfhedge.nn import WhalleyWilmott
+        ww = WhalleyWilmott(deriv, a=50.0)      # band half-width about 0.15 at cost 1e-2
+        if case["model"] == "ww:mo":
+            mo_net = torch.nn.Sequential(torch.nn.Linear(2, 2), torch.nn.Tanh(), torch.nn.Linear(2, 1)).to(f64)
+
+            class Shift(torch.nn.Module):
+                def __init__(self, net):
+                    super().__init__()
+                    self.net = net
+
+                def forward(self, x):
+                    return x[..., [0]] + 0.1 * self.net(x)
+            inputs = [ModuleOutput(Shift(mo_net), ["log_moneyness", "time_to_maturity"]), "time_to_maturity", "volatility", "prev_hedge"]
+        else:
+            inputs = ww.inputs()
+        F = 4
     else:
         raise KeyError(fm)
-    if case["model"].startswith("band:"):
+    if case["model"].startswith("ww:"):
+        if fm != "ww" or H != 1:
+            raise HarnessError("C14: WhalleyWilmott composites read ww.inputs() and trade one instrument")
+        model = (PreWW(ww) if case["model"] == "ww:pre" else CountWW(ww)).to(f64)
+        w.ww_stats = model.stats = {"active": 0, "inactive": 0}
+    elif case["model"].startswith("band:"):
         if fm != "prev":
             raise HarnessError("C14: band models read (log_moneyness, time_to_maturity, prev_hedge)")
         _, impl, mode, slope = case["model"].split(":")
         model = BandModel(H, impl, mode, float(slope), T).to(f64)
         w.band_stats = model.stats = {"inverted": 0, "active": 0, "inactive": 0}
-    elif case["model"] == "mlp":
+    elif case["model"] in ("mlp", "mlp_frozen_first"):
         model = torch.nn.Sequential(torch.nn.Linear(F, 3), torch.nn.Tanh(), torch.nn.Linear(3, H)).to(f64)
     else:
         model = torch.nn.Linear(F, H).to(f64)
     _init_generic(model, gen)
+    if case["model"] == "mlp_frozen_first":
+        for p in model[0].parameters():     # the FIRST parameters of the model do not require grad
+            p.requires_grad_(False)
     if mo_net is not None:
         _init_generic(mo_net, gen)
     crit = make_criterion(crit_name)
@@ -270,7 +340,7 @@ def build_world(case):
                     worst_pl = min(worst_pl, v)
         w.sim.calls = 0
         endowment["value"] = float(math.ceil(max(0.0, -worst_pl))) + 2.0
-    params = [("model." + n, p) for n, p in model.named_parameters()]
+    params = [("model." + n, p) for n, p in model.named_parameters() if p.requires_grad]
     if mo_net is not None:
         params += [("module_output." + n, p) for n, p in mo_net.named_parameters()]
     params += [("criterion." + n, p) for n, p in crit.named_parameters()]
@@ -284,7 +354,7 @@ def loss_value(w):
 
 
 def stepwise_expected(fm):
-    return fm in ("step", "prev", "mo_prev", "mo_free_prev", "mo_ww")
+    return fm in ("step", "prev", "mo_prev", "mo_free_prev", "mo_ww", "ww")
 
 
 def admissible(case):
@@ -292,10 +362,45 @@ def admissible(case):
         return False
     if case["model"].startswith("band:") and case["fm"] != "prev":
         return False
+    if (case["fm"] == "ww") != case["model"].startswith("ww:"):
+        return False
+    if case["fm"] == "ww" and (case["H"] != 1 or not case["cost"] > 0):
+        return False
     return True
 
 
-def tolerances(case, g_scale, fmax, level):
+def path_sensitivities(w):
+    """max over paths and batches of |d pl_i / d theta_j| for every scalar coordinate j, by central differences of
+    the per-path P&L (QuadraticCVaR only: bounds the slopes of the bisection bracket ends and of the optimal omega)."""
+    h = LADDER[1]
+
+    def pls():
+        w.sim.calls = 0
+        out = []
+        for _ in range(w.n_times):
+            w.derivative.simulate(n_paths=w.N)
+            out.append(w.hedger.compute_pl(w.derivative, hedge=w.hedge))
+        w.sim.calls = 0
+        return torch.stack(out)
+
+    sens = []
+    with torch.no_grad():
+        for name, p in w.params:
+            flat = p.view(-1)
+            for i in range(flat.numel()):
+                x0 = flat[i].item()
+                flat[i] = x0 + h
+                a = pls()
+                flat[i] = x0 - h
+                b = pls()
+                flat[i] = x0
+                d = (a - b) / ((x0 + h) - (x0 - h))
+                d = d - d.mean(dim=-1, keepdim=True)     # the criterion centres the sample
+                sens.append(float(d.abs().max()))
+    return sens
+
+
+def tolerances(case, g_scale, fmax, level, path_sens=0.0):
     """Derived bounds for the step pair (LADDER[level], LADDER[level+1]) (see fd_ref docstring).
     M3: third derivatives of the loss along coordinate axes are bounded by 2e3 * (largest first derivative)
     on the stencils (tanh networks with |weights| < 1, features and prices of order one, at most 6 recurrent
@@ -308,9 +413,13 @@ def tolerances(case, g_scale, fmax, level):
         # the loss is evaluated at omega_hat with |omega_hat - omega*| <= p (bisection precision
         # p = 1e-6 * 10^int(log10(range)) <= 1e-6 here), so the computed function differs from the smooth
         # envelope by at most lam*p^2 (second order in the optimality gap), a piecewise-constant wobble that a
-        # central difference divides by 2h; back-propagation adds |dL/d omega| * |d omega_hat/d theta| <= 2*lam*p*|d range|.
+        # central difference divides by 2h.  Back-propagation differentiates L(omega_hat(theta), theta) with
+        # omega_hat a fixed convex combination of the bracket ends (min and max of the centred sample), whereas
+        # differences across many bisection decisions follow omega*(theta): the two differ by
+        # |dL/d omega| * |d omega_hat/d theta - d omega*/d theta| <= (2*lam*p) * 2*S, S = max_i |d x_i/d theta| over
+        # the paths (both slopes are convex combinations of path slopes); S is measured per coordinate.
         lam, p = 5.0, 1e-6
-        extra = lam * p * p / hb + 2 * lam * p * g_scale * 4
+        extra = lam * p * p / hb + 2 * lam * p * 2 * path_sens
     agree = (ha * ha - hb * hb) * m3 / 6 + ra + rb + 2 * extra   # |D(ha) - D(hb)| for a coordinate smooth on the ha-stencil
     # Richardson value: O(h^4) truncation (bounded by 1e-3 of the O(h^2) terms) + amplified rounding + wobble
     acc = (16 * rb + ra) / 15 + 2 * extra + 1e-3 * (ha * ha + hb * hb) * m3 / 6
@@ -345,6 +454,10 @@ def grad_fd(ctx, block):
             ctx.add("band_cells_clamp_active", w.band_stats["active"])
             ctx.add("band_cells_clamp_inactive", w.band_stats["inactive"])
             ctx.add("band_cells_inverted", w.band_stats["inverted"])
+        if getattr(w, "ww_stats", None) is not None:
+            w.model.stats = None
+            ctx.add("ww_cells_clamp_active", w.ww_stats["active"])
+            ctx.add("ww_cells_clamp_inactive", w.ww_stats["inactive"])
         tensors = [p for _, p in w.params]
         grads = torch.autograd.grad(loss, tensors, allow_unused=True)
         g_ad = []
@@ -374,6 +487,7 @@ def grad_fd(ctx, block):
         fmax = max(fm1, fm2, abs(f0))
         g_scale = max(max(abs(x) for x in g_ad), max(abs(x) for x in d2))
         n_smooth = n_kink = n_undecided = 0
+        qsens = path_sensitivities(w) if case["criterion"] == "qcvar" else None
         extra_evals = 0
         worst = 0.0
         for i, (name, j) in enumerate(coords):
@@ -386,7 +500,7 @@ def grad_fd(ctx, block):
             verdict = None
             level = 0
             while True:
-                agree, acc = tolerances(case, g_scale, fmax, level)
+                agree, acc = tolerances(case, g_scale, fmax, level, qsens[i] if qsens is not None else 0.0)
                 ha, hb = LADDER[level], LADDER[level + 1]
                 clean = abs(ds[level] - ds[level + 1]) <= agree
                 ref = fd_ref.richardson(ds[level], ds[level + 1], ha, hb)
@@ -409,12 +523,27 @@ def grad_fd(ctx, block):
             elif verdict == "resolved":
                 n_kink += 1
             elif verdict == "mismatch":
-                part = name.split(".")[0]
-                ctx.violation(site, f"gradient_mismatch:{part}:{_kind(case)}",
-                              f"back-propagated d loss/d {name}[{j}] = {a!r} but central differences (h={ha:g},{hb:g}) give {ref!r} "
-                              f"(tolerance {tol:.3g}; criterion={case['criterion']}, fm={case['fm']}, cost={case['cost']}, "
-                              f"H={case['H']}, model={case['model']}, paths={case['paths']})",
-                              observed=a, expected=ref, block=mini)
+                # All step pairs agree with each other but not with back-propagation.  Either the gradient is wrong,
+                # or a kink lies much closer to the point than the finest step (then every central difference is the
+                # mean of the two one-sided slopes).  The two are told apart without assumptions: the gap between the
+                # one-sided slopes is proportional to h for a smooth coordinate and independent of h at a kink.
+                lo_a, hi_a = _one_sided(f, w.params, name, j, LADDER[-1])
+                lo_b, hi_b = _one_sided(f, w.params, name, j, LADDER[-2])
+                extra_evals += 6
+                jump_a, jump_b = hi_a - lo_a, hi_b - lo_b
+                noise = 8 * fd_ref.rounding_bound(fmax, LADDER[-1])
+                kink = abs(jump_a) > 0.5 * abs(jump_b) and abs(jump_a) > noise and abs(jump_a) >= abs(a - ref)
+                slack = acc + 0.1 * abs(jump_a) + 1e-4 * max(abs(lo_a), abs(hi_a))
+                if kink and min(lo_a, hi_a) - slack <= a <= max(lo_a, hi_a) + slack:
+                    n_kink += 1
+                    n_undecided += 1
+                else:
+                    part = name.split(".")[0]
+                    ctx.violation(site, f"gradient_mismatch:{part}:{_kind(case)}",
+                                  f"back-propagated d loss/d {name}[{j}] = {a!r} but central differences (h={ha:g},{hb:g}) give {ref!r} "
+                                  f"(tolerance {tol:.3g}; one-sided slopes {lo_a!r}, {hi_a!r}; criterion={case['criterion']}, fm={case['fm']}, "
+                                  f"cost={case['cost']}, H={case['H']}, model={case['model']}, paths={case['paths']})",
+                                  observed=a, expected=ref, block=mini)
             else:
                 # kink closer than the finest step: the derivative is not decided by differences; any valid
                 # (sub)gradient lies between the one-sided slopes
@@ -427,6 +556,24 @@ def grad_fd(ctx, block):
                     ctx.violation(site, f"gradient_outside_one_sided_slopes:{_kind(case)}",
                                   f"non-smooth coordinate {name}[{j}]: back-propagated value {a!r} is not between the one-sided slopes {lo!r}, {hi!r}",
                                   observed=a, expected=[lo, hi], block=mini)
+        # the fit pattern: after many gradient-free evaluations on the SAME hedger the back-propagated gradient of a
+        # further evaluation is the same (no state of an earlier evaluation may leak into the graph)
+        w.sim.calls = 0
+        loss2 = hedger.compute_loss(w.derivative, hedge=w.hedge, n_paths=w.N, n_times=w.n_times)
+        if not loss2.requires_grad:
+            ctx.violation(site, "default_loss_has_no_graph:after_earlier_evaluations", "compute_loss() after gradient-free evaluations on the same hedger carries no graph",
+                          observed=False, expected=True, block=mini)
+        else:
+            grads2 = torch.autograd.grad(loss2, tensors, allow_unused=True)
+            g2 = []
+            for (n_, p_), g_ in zip(w.params, grads2):
+                g2 += [0.0] * p_.numel() if g_ is None else g_.reshape(-1).tolist()
+            bad = [i for i in range(len(g2)) if not (g2[i] == g_ad[i] or (g2[i] != g2[i] and g_ad[i] != g_ad[i]))]
+            if bad:
+                i = bad[0]
+                ctx.violation(site, f"gradient_depends_on_earlier_evaluations:{_kind(case)}",
+                              f"the gradient of the same loss on the same paths changed after gradient-free evaluations on the same hedger "
+                              f"({len(bad)} coordinates, first {coords[i][0]}[{coords[i][1]}])", observed=g2[i], expected=g_ad[i], block=mini)
         if unused:
             ctx.add("parameters_without_gradient_path", len(unused))
         n = len(coords)
@@ -557,7 +704,7 @@ def run(ctx):
     ctx.alphabet("H", [1, 2])
     ctx.alphabet("n_times", [1, 2, 3])
     ctx.alphabet("module_mode", ["train", "eval"])
-    ctx.alphabet("model", list(MODELS) + list(BANDS))
+    ctx.alphabet("model", list(MODELS) + list(BANDS) + ["ww:pre", "ww:mo", "mlp_frozen_first"])
     extra = ctx.extra_symbol("spot", [0.7, 1.1, 1.25, 1.4])
     if ctx.quick:
         ctx.alphabet("path_sets", {k: PATH_SETS[k] for k in ("A3T4", "A2T5")})
@@ -576,7 +723,15 @@ def run(ctx):
             for c in _cases({"criterion": list(CRITERIA), "fm": ["vec", "prev"], "cost": [0.01], "H": [1], "model": ["mlp"],
                              "paths": ["A2T5"]}, wseed):
                 q4.append(dict(c, n_times=nt, mode=mode))
-        q3 = q3 + q4
+        # Q5: trainable layers in front of WhalleyWilmott (delta and gamma-dependent band width depend on parameters),
+        # and a network whose FIRST parameters are frozen
+        q5 = _cases({"criterion": list(CRITERIA), "fm": ["ww"], "cost": [0.01], "H": [1], "model": ["ww:pre", "ww:mo"],
+                     "paths": ["A2T5"]}, wseed)
+        q5 += _cases({"criterion": list(CRITERIA), "fm": ["vec", "prev"], "cost": [0.01], "H": [1], "model": ["mlp_frozen_first"],
+                      "paths": ["A2T5"]}, wseed)
+        q5 += [dict(c, mode="eval") for c in _cases({"criterion": ["oce"], "fm": ["ww", "prev"], "cost": [0.01], "H": [1],
+                                                     "model": ["ww:mo", "mlp_frozen_first"], "paths": ["A2T5"]}, wseed)]
+        q3 = q3 + q4 + q5
         for chunk in _chunks(q1 + q2 + q3, 16):
             ctx.run("grad_fd", {"cases": chunk})
         ng = _cases({"criterion": list(CRITERIA), "fm": ["vec", "prev", "mo_vec"], "cost": [0.01], "H": [1, 2],
@@ -594,6 +749,12 @@ def run(ctx):
                 cs += _cases({"criterion": crits, "fm": ["prev"], "cost": [0.0, 0.01], "H": [1, 2],
                               "model": list(BANDS), "paths": [ps]}, ws, extra=extra if ps == "A4T3" else None)
                 blocks += [{"cases": c} for c in _chunks(cs, 30)]
+        for ps in PATH_SETS:
+            cs = _cases({"criterion": crits, "fm": ["ww"], "cost": [0.01], "H": [1], "model": ["ww:pre", "ww:mo"], "paths": [ps]}, wseed)
+            cs += _cases({"criterion": crits, "fm": list(FMODES), "cost": [0.0, 0.01], "H": [1, 2], "model": ["mlp_frozen_first"],
+                          "paths": [ps]}, wseed)
+            cs += [dict(c, mode="eval") for c in cs if c["criterion"] == "oce"]
+            blocks += [{"cases": c} for c in _chunks(cs, 30)]
         # ensemble means and module mode: full product with the feature modes on two path sets
         for ps in ("A3T4", "A2T6"):
             cs = []
